@@ -5,6 +5,7 @@ CONSTANTS
   MaxNest = 3
   MaxSteps = 24
   Endings = {"plain", "tryexc", "tryfin", "condret"}
+  Portals = TRUE
 INVARIANT TreeShape
 INVARIANT AexitHasKids
 CONSTRAINT Emit
